@@ -145,6 +145,7 @@ def search(ctx):
                 cands.append((H.cfg_unjson(c["config"]), H.hist_unjson(c["history"])))
     for _ in range(ctx.n(300, 3000)):
         cands.append(H.gen_case(ctx, rng, rng.choice(["claims", "claims", "claims", "mixed"])))
+    cands.extend(reclaim_cases(rng))
     for cfg, hist in cands:
         w = c11_witness(cfg, hist)
         if w and w["key"] not in seen:
@@ -153,6 +154,36 @@ def search(ctx):
     w = discovery_text_oracle(rng)
     if w and w["key"] not in seen:
         out.append(w)
+    return out
+
+
+def reclaim_cases(rng):
+    """One address claimed again and again: by another manufacturer, and by a NAME that differs from the previous one
+    in a single field only (each field of the NAME in turn, high and low half), with data between the claims, under
+    every way of filtering the claim PGN itself and each manufacturer list shape."""
+    names = H._mfr_names()
+    d1 = bytes.fromhex("01102700007fff7f")
+    d2 = bytes.fromhex("00f8ff7f0a00ffff")
+    out = []
+    pgn_cfgs = [([], []), ([CLAIM], []), (["isoAddressClaim"], []), ([], [127250, 127245]), ([], [127250, "isoaddressclaim"])]
+    flips = [1 << 0, 1 << 20, 1 << 32, 1 << 35, 1 << 40, 1 << 49, 1 << 56, 1 << 63, 0x7 << 32, 0x1F << 35]
+    for _ in range(6):
+        ma, mb = rng.sample(H.MFR_KNOWN, 2)
+        src = rng.choice(H.SOURCES)
+        na = H.make_name(rng, "known") & ~(0x7FF << 21) | (ma << 21)
+        nb = H.make_name(rng, "known") & ~(0x7FF << 21) | (mb << 21)
+        seq = [na, nb, na ^ rng.choice(flips), nb ^ rng.choice(flips), rng.choice([na, nb]) ^ rng.choice(flips[2:])]
+        if rng.random() < 0.5:
+            seq.insert(2, H.make_name(rng, "unknown"))
+        hist = []
+        for n in seq:
+            hist.append((H.mk_pkt(CLAIM, src, 255, 6, n.to_bytes(8, "little")), False))
+            hist.append((H.mk_pkt(127250, src, 255, 2, d1), False))
+            hist.append((H.mk_pkt(127245, src, 255, 2, d2), False))
+        for ex, inc in pgn_cfgs:
+            for exm, incm in (([], []), ([names[mb]], []), ([names[ma]], []), ([], [names[ma]]), ([], [names[mb]]),
+                              ([H.rand_case_str(rng, names[mb])], [])):
+                out.append(({"ex": list(ex), "inc": list(inc), "exm": exm, "incm": incm, "nm": rng.random() < 0.3}, hist))
     return out
 
 
